@@ -50,7 +50,7 @@ LinearModel::LinearModel(const LinearMatrixComponent& linear_matrix_component, c
 
 std::pair<bool, MatrixXd> LinearModel::getNoiseSample(const int num) const
 {
-    MatrixXd rand_vectors(2, num);
+    MatrixXd rand_vectors(sqrt_R_.cols(), num);
     for (int i = 0; i < rand_vectors.size(); i++)
         *(rand_vectors.data() + i) = gauss_rnd_sample_();
 
